@@ -31,7 +31,7 @@ EXPECTED_THEOREMS = {
     "C03": ["limited_read_exact", "buffered_read_exact", "buffered_is_next_n", "upgrade_read_exact", "empty_read", "chunked_read_exact", "te_precedence", "declared_length", "no_framing_no_body"],
     "C09": ["next_head_offset_limited", "next_head_offset_buffered", "next_head_offset_empty", "next_head_offset_chunked", "chunked_read_then_drain", "pipeline_with_bodies", "plainBodied_wellBodied", "wellBodied_step", "pipeline_with_any_bodies"],
     "C10": ["request_line_needs_three_fields", "unknown_version_rejected", "version_table", "header_without_colon_rejected", "bad_request_line_outcome", "bad_header_outcome", "non_ascii_outcome", "non_ascii_line", "unsupported_expect_outcome", "expect_classification", "version_too_high_outcome", "too_high_versions", "earlier_responses_first", "pipeline_then_bad_request_line", "pipeline_then_eof", "refused_step", "pipeline_with_refused_requests", "pipeline_with_refused_requests_delivery", "pipeline_with_refused_requests_exact", "refused_requests_do_not_end_the_connection", "refusedRequest_of_framingOf"],
-    "C16": ["ws_in_name_rejected", "ws_before_colon_rejected", "leading_ws_rejected", "bad_content_length_rejected", "strict_content_length_iff", "non_digit_rejected", "rejected_line_fails_head", "bad_content_length_outcome"],
+    "C16": ["ws_in_name_rejected", "ws_before_colon_rejected", "leading_ws_rejected", "bad_content_length_rejected", "strict_content_length_iff", "non_digit_rejected", "rejected_line_fails_head", "bad_content_length_outcome", "pipeline_then_ws_in_header", "pipeline_then_obs_fold", "pipeline_then_bad_content_length", "pipeline_then_refused", "smuggling_head_never_interpreted", "bytes_after_smuggling_head_ignored", "smuggling_head_summary"],
     "C12": ["last_request_decision", "nothing_after_last", "stays_open", "close_after_client_eof", "trace_extends_state", "closingRequest_covers", "closing_run", "pipeline_then_closing_request", "bytes_after_closing_request_ignored", "open_pipeline_waits"],
     "C18": ["continue_exactly_once", "continue_is_flushed", "expect_recognised", "no_expect_no_continue", "expect_body_not_preread", "framing_expectation", "pipeline_statuses", "no_expectation_only_finals", "no_expectation_no_interim", "interim_count_general", "interim_count", "non_interim_statuses"],
     "C04": ["pieces_irrelevant", "dechunk_enchunk", "no_body_bytes", "client_roundtrip", "oracle_of_roundtrip"],
